@@ -14,6 +14,7 @@ criterion, iteration limit.
   T_C13_sens       the sensitivity probe gives back the state
   T_C13_noworse    grid quality after `optimize_clamp` / `optimize` ≤ before (`_general`: from any state,
                    relative to the state the first probes leave)
+  T_C13_noworse_again   a second `optimize` call keeps consistency; quality ≤ before the first call
   T_C13_noraise    no `ValueError` leaves `optimize` (rolled back, never half-applied)
   T_C13_fuel       the `while` loop needs at most `max_iterations` rounds
   T_C13_order      the sorted clamp order is a permutation of the probed clamps
@@ -161,6 +162,24 @@ theorem T_C13_noworse_general [LinearOrder Q] [LinearOrder S] {cfg : Cfg P Prm} 
     ∃ qn q1, o.gq (probeAll cfg o (sched 0) cfg.clampIdx.zipIdx st).1.pts = some qn ∧
       o.gq (optimize cfg o conv maxIter sched st).st.pts = some q1 ∧ q1 ≤ qn :=
   optimizeLoop_noworse_general hwf conv maxIter sched maxIter [] [] st hlen hplen hnr hit
+
+/-- **Histories.** `optimize` may be called again (other method, other schedule, other iteration limit,
+    the same clamps and links — the same `cfg`, i.e. clamp functions and links that do not change
+    between the calls): the second call starts from the rest state the first one left, so consistency
+    is kept and the quality after the second call is not larger than before the first.  (A clamp
+    function that silently changes between two calls — e.g. because it aliases a vertex array the
+    back-port moves — is outside `cfg`; the harness detects it as a non-functional oracle graph.) -/
+theorem T_C13_noworse_again [LinearOrder Q] [LinearOrder S] {cfg : Cfg P Prm} {n : Nat} (hwf : WF cfg n)
+    (o : Oracles P Q) (conv conv' : List (Q × Q) → Bool) (maxIter maxIter' : Nat)
+    (sched sched' : Nat → IterSched Prm S) (st : St P Prm) (hr : Rest cfg n st) (q0 : Q)
+    (hq : o.gq st.pts = some q0) :
+    Rest cfg n (optimize cfg o conv' maxIter' sched' (optimize cfg o conv maxIter sched st).st).st ∧
+      ∃ q2, o.gq (optimize cfg o conv' maxIter' sched' (optimize cfg o conv maxIter sched st).st).st.pts = some q2 ∧
+        q2 ≤ q0 := by
+  have hr1 := T_C13_on hwf o conv maxIter sched st hr
+  obtain ⟨q1, hq1, hle1⟩ := T_C13_noworse hwf o conv maxIter sched st hr q0 hq
+  obtain ⟨q2, hq2, hle2⟩ := T_C13_noworse hwf o conv' maxIter' sched' _ hr1 q1 hq1
+  exact ⟨T_C13_on hwf o conv' maxIter' sched' _ hr1, q2, hq2, le_trans hle2 hle1⟩
 
 /-- **No exception, never half-applied.** If a defined grid quality implies a defined junction
     quality (every junction's cells are cells of the grid), then from a consistent state with defined
@@ -325,6 +344,10 @@ example : (optimize exCfg exO exConv 2 exSched exSt0).st.pts = [0, 2, 12] ∧
     (optimize exCfg exO exConv 2 exSched exSt0).raised = none ∧
     (optimize exCfg exO exConv 2 exSched exSt0).hist = [(9, 0), (0, 0)] ∧
     (optimize exCfg exO exConv 2 exSched exSt0).steps.map (·.map (·.flag)) = [[.improved], [.skip]] := by decide
+
+/-- `T_C13_noworse_again` on the instance: a second call (other schedule order) from the state the first left -/
+example : (optimize exCfg exO exConv 1 (fun _ => exSched 1) (optimize exCfg exO exConv 2 exSched exSt0).st).st.pts
+    = [0, 2, 12] := by decide
 
 /-- hypotheses of `T_C13_frame` (vertex 0 is not movable, vertices 1 and 2 are) -/
 example : ¬ movable exCfg 0 ∧ movable exCfg 1 ∧ movable exCfg 2 := by
